@@ -15,7 +15,9 @@ MAX_TICK = 200 * 48
 
 # the last entries: the same kind of numbers in other spellings a decimal parser accepts (exponent, sign, bare dot)
 BPM_POOL = ["60", "120", "90.5", "240", "1", "2000", "133.333", "180.25", "59.999", "300", "7.5", "1000.001", "1.5E+2", "1.2e2", "+120", "120.", "0120.50"]
-LEN_POOL = ["0.25", "0.5", "1.125", "0.001", "10", "0.333", "2", ".25", "2.5E-1", "+0.5", "5E-1", "1e0"]
+LEN_POOL = ["0.25", "0.5", "1.125", "0.001", "10", "0.333", "2", ".25", "2.5E-1", "+0.5", "5E-1", "1e0",
+            # six-decimal values as SSC files carry them, down to a microsecond: short, but positive
+            "0.000400", "0.000500", "0.000001", "0.000049", "1E-4"]
 
 bpm_value = st.one_of(
     st.sampled_from(BPM_POOL),
@@ -47,6 +49,12 @@ def timelines(draw, max_events=4, span=None):
         return sorted(ks)
 
     bpms = [[0, draw(bpm_value)]] + [[k, draw(bpm_value)] for k in beats(max_events, lo=1)]
+    if len(bpms) > 1 and draw(st.integers(0, 3)) == 0:
+        # a tempo change so small that it only shows in the 4th..6th decimal (139.999924 -> 140.000061): still a change
+        i = draw(st.integers(1, len(bpms) - 1))
+        near = D(bpms[i - 1][1]) + draw(st.sampled_from([D("0.000137"), D("0.0004"), D("-0.0003"), D("0.000001"), D("0.0005")]))
+        if 1 <= near <= 2000:
+            bpms[i][1] = format(near, "f")
     stops = [[k, draw(pause_value)] for k in beats(max_events)]
     delays = [[k, draw(pause_value)] for k in beats(max_events)]
     warps = []
